@@ -22,12 +22,15 @@ class U:
     def fname(self):
         return "%s.%s" % (self.stem, self.typ)
 
+    def user_unit(self):
+        return "".join("[Unit]\n%s=%s\n" % kv for kv in getattr(self, "unit_lines", []))
+
     def text(self, split=False):
         """the unit as one file; with split=True the main file only (the naming assignments go to dropin_text())"""
         base = {"container": [], "volume": [], "network": [], "image": [("Image", "quay.io/img/%s" % self.stem)], "build": [("File", "/Containerfile")],
                 "pod": [], "kube": [("Yaml", "/y.yml")]}[self.typ]
         ks = base + self.keys + ([] if split else self.named())
-        return "[%s]\n%s" % (SECTION[self.typ], "".join("%s=%s\n" % kv for kv in ks))
+        return self.user_unit() + "[%s]\n%s" % (SECTION[self.typ], "".join("%s=%s\n" % kv for kv in ks))
 
     def named(self):
         return self.late + ([("ServiceName", self.service_name)] if self.service_name else [])
@@ -157,6 +160,14 @@ def gen_set(rng):
         t = target("volume"); b.keys.append(("Volume", t + ":/bv")); b.refs.append(("volume", t, ":/bv"))
         referrers.append(b)
     allu = units + referrers
+    # the user may already have written one half of the dependency on a referenced unit's service (Requires= without After=, or After=
+    # alone, or on another service): the generator still adds BOTH for every reference
+    by = {u.fname: u for u in allu}
+    for r in referrers:
+        if r.refs and rng.random() < 0.3:
+            t = by.get(rng.choice(r.refs)[1])
+            svc = t.service_file() if t else "other.service"
+            r.unit_lines = rng.choice([[("Requires", svc)], [("After", svc)], [("Requires", "other.service")], [("Requires", svc), ("After", "other.service")]])
     rng.shuffle(allu)
     return allu
 
@@ -206,8 +217,9 @@ def check_set(ctx, allu, recs, label):
                 bad = "image %s expected as argument" % name
             if kind == "volimage" and not any(argv[i] == "--opt" and argv[i + 1] == "image=" + name for i in range(len(argv) - 1)):
                 bad = "--opt image=%s expected" % name
-            if not bad and (svc not in req or svc not in aft):
-                bad = "Requires=/After=%s expected, got Requires=%s After=%s" % (svc, req, aft)
+            ul = getattr(u, "unit_lines", [])
+            if not bad and (req.count(svc) <= sum(1 for k, v in ul if k == "Requires" and v == svc) or aft.count(svc) <= sum(1 for k, v in ul if k == "After" and v == svc)):
+                bad = "Requires=/After=%s expected in addition to the user's own [Unit] lines %s, got Requires=%s After=%s" % (svc, ul, req, aft)
             if bad:
                 ctx.failures.append({"op": label, "what": "%s -> %s (%s): %s; argv=%s" % (u.fname, t, kind, bad, argv), "set": [(x.fname, x.text()) for x in allu], "class": None})
 
